@@ -1,7 +1,7 @@
 """C08 - Chomsky conversion yields an equivalent CNF grammar, phase by phase."""
 from hypothesis import strategies as st
 
-from harness.engine import Clause, Fail, lib
+from harness.engine import Clause, Fail, lib, lib_verbose
 from ref import cfg as RC
 from gen import cfg as GC
 from bridge import cfg as BC
@@ -107,6 +107,8 @@ def classes(spec):
         cls.add("shared_rhs")
     if len(spec["V"]) >= 24:
         cls.add("many_variables")
+    if any(t.upper() in spec["T"] and t.upper() != t for t in spec["T"]):
+        cls.add("letter_in_both_cases")
     return cls
 
 
@@ -120,7 +122,7 @@ def run_full(case):
     before = BC.canon(spec)
     L = bound(spec)
     lang = RC.lang_upto(spec, L)
-    G2 = lib(CA.cfg_to_chomsky, G)
+    G2 = lib_verbose(CA.cfg_to_chomsky, G) if case.get("verbose") else lib(CA.cfg_to_chomsky, G)
     snap = check_result(G2, spec, "cfg_to_chomsky", lang, L)
     err = RC.is_cnf(snap)
     if err:
@@ -240,7 +242,15 @@ def base_specs(draw, tier):
 
 def upper_terminal(draw, spec):
     """One time in ten a terminal becomes an upper-case letter that is not a variable of this grammar (but is one of other grammars handled by the same process)."""
-    if draw(st.integers(0, 9)) or not spec["T"]:
+    k = draw(st.integers(0, 9))
+    if k == 1:
+        # a letter in both cases (a and A are different terminals with the same upper-case form); some occurrences of the letter change case
+        pairs = [t for t in spec["T"] if t.islower() and t.upper() not in spec["V"] and t.upper() not in spec["T"]]
+        if pairs:
+            t = pairs[draw(st.integers(0, len(pairs) - 1))]
+            R = [[A, [t.upper() if x == t and x not in spec["V"] and draw(st.booleans()) else x for x in rhs]] for A, rhs in spec["R"]]
+            return dict(spec, T=list(spec["T"]) + [t.upper()], R=R)
+    if k or not spec["T"]:
         return spec
     free = [x for x in "XYZWV" if x not in spec["V"]]
     if not free:
@@ -251,7 +261,7 @@ def upper_terminal(draw, spec):
 
 @st.composite
 def full_cases(draw, tier):
-    return {"cfg": upper_terminal(draw, draw(base_specs(tier))), "id_offset": draw(st.integers(0, 14))}
+    return {"cfg": upper_terminal(draw, draw(base_specs(tier))), "id_offset": draw(st.integers(0, 14)), "verbose": draw(st.integers(0, 5)) == 0}
 
 
 @st.composite
@@ -278,4 +288,4 @@ KNOWN_PREDICATES = {}
 
 # coverage-guided second driver (atheris / libFuzzer through Hypothesis' fuzz_one_input) for the core clauses: (clause, quick runs, thorough runs)
 from harness.covfuzz import cov_clauses  # noqa: E402
-CLAUSES += cov_clauses('C08', CLAUSES, [('phase', 2000, 40000), ('to_chomsky', 1500, 30000)])
+CLAUSES += cov_clauses('C08', CLAUSES, [('phase', 2000, 13333), ('to_chomsky', 1500, 10000)])
